@@ -190,6 +190,9 @@ func (ws *WALStorage) Append(entries []myraft.Entry) error {
 	if len(infos) != 1 {
 		return fmt.Errorf("raftstore: expected single entry record, got %d", len(infos))
 	}
+	if err := ws.persistWAL(); err != nil {
+		return err
+	}
 	if err := ws.mem.Append(entries); err != nil {
 		return err
 	}
@@ -226,6 +229,9 @@ func (ws *WALStorage) ApplySnapshot(snap myraft.Snapshot) error {
 	}
 	if len(infos) != 1 {
 		return fmt.Errorf("raftstore: expected single snapshot record, got %d", len(infos))
+	}
+	if err := ws.persistWAL(); err != nil {
+		return err
 	}
 	if err := ws.mem.ApplySnapshot(snap); err != nil {
 		return err
@@ -298,6 +304,9 @@ func (ws *WALStorage) SetHardState(st myraft.HardState) error {
 	if len(infos) != 1 {
 		return fmt.Errorf("raftstore: expected single hard state record, got %d", len(infos))
 	}
+	if err := ws.persistWAL(); err != nil {
+		return err
+	}
 	if err := ws.mem.SetHardState(st); err != nil {
 		return err
 	}
@@ -353,6 +362,16 @@ func (ws *WALStorage) Snapshot() (myraft.Snapshot, error) {
 }
 
 // Internal helpers ----------------------------------------------------------
+
+// persistWAL makes the record just appended durable before the call returns
+// and before the manifest pointer moves past it. The shared WAL is opened
+// without SyncOnWrite, so without this the record only sits in the manager's
+// user-space buffer: raft would act on state a crash can still lose, and the
+// manifest pointer (written through) would reference bytes that never reached
+// the file, which makes OpenWALStorage fail at the next start.
+func (ws *WALStorage) persistWAL() error {
+	return ws.wal.Sync()
+}
 
 func (ws *WALStorage) updatePointer(ptr manifest.RaftLogPointer) error {
 	if ptr.Segment == 0 {
